@@ -41,7 +41,7 @@ def jobs(tier, seed):
         for si in idx:
             for eng in ['MD', 'RDA', 'IG']:
                 out.append({'dom': 3, 'si': si, 'truth': ['pos', 'sparse'][si % 2], 'engine': eng, 'total': 'known' if si % 4 else 'none',
-                            'iters': 600, 'tau': 1e-2, 'seed': seed, 'prior': si % 2 == 1, 'listproj': si % 3 == 0})
+                            'iters': 600, 'tau': 1e-2, 'seed': seed, 'prior': si % 2 == 1, 'listproj': si % 3 == 0, 'reuse': si % 6 in (0, 4)})
         for xi in range(len(EXTRA3)):
             for eng in ['MD', 'RDA', 'IG']:
                 out.append({'dom': 3, 'si': 1000 + xi, 'truth': 'pos', 'engine': eng, 'total': 'known', 'iters': 600, 'tau': 1e-2, 'seed': seed,
@@ -52,7 +52,7 @@ def jobs(tier, seed):
                 for eng in ['MD', 'RDA', 'IG']:
                     for tot in ['known', 'none']:
                         out.append({'dom': 3, 'si': si, 'truth': tk, 'engine': eng, 'total': tot, 'iters': 3000, 'tau': 1e-3, 'seed': seed, 'prior': tot == 'none',
-                                    'listproj': tk == 'sparse'})
+                                    'listproj': tk == 'sparse', 'reuse': (tk == 'pos') != (tot == 'none')})
         for xi in range(len(EXTRA3)):
             for eng in ['MD', 'RDA', 'IG']:
                 out.append({'dom': 3, 'si': 1000 + xi, 'truth': 'sparse', 'engine': eng, 'total': 'none', 'iters': 3000, 'tau': 1e-3, 'seed': seed, 'listproj': xi % 2 == 0})
@@ -136,6 +136,11 @@ def evaluate(job):
         ms_ = prob.fresh_measurements()
         if job.get('listproj'):
             ms_ = [(Q, y, s_, list(pr)) for (Q, y, s_, pr) in ms_]   # projections spelled as lists (order as given)
+        if job.get('reuse'):
+            # the caller keeps ONE measurement list (the same tuples and arrays) and has already handed it to two other estimators,
+            # as a mechanism that grows one list round by round does; the measurements are the caller's and still say what they said
+            for _ in range(2):
+                FactoredInference(Domain(attrs, sizes), iters=3).estimate(ms_, total=prob.T if job['total'] == 'known' else None, engine=job['engine'])
         model = eng.estimate(ms_, total=prob.T if job['total'] == 'known' else None, engine=job['engine'])
     T = float(model.total)
     p = np.asarray(model.datavector(), dtype=float)
